@@ -75,6 +75,10 @@ func crashraceMain(args []string) {
 		}()
 	}
 	wg.Wait()
+	if cf.replay == "" && !sum.tooMany() {
+		flapScenario(sum)
+		calls++
+	}
 	sum.Cases = calls
 	sum.finish(start, cf.out)
 }
